@@ -325,3 +325,21 @@ Proof.
     apply zrange_consecutive in Hz. subst b. simpl in H. inversion H as [[H1 H2 H3]].
     revert H2. apply no_one_then_ten; [right; reflexivity|exact H1].
 Qed.
+
+(* ------------------------------------------------------------------ *)
+(* Finding (unchanged tree): the wheel starts the expiry callbacks of a tick on a goroutine
+   of their own, after it has removed the fired timers.  A SetWithExpire of a fired key that
+   gets in before its callback runs stores the new value and a NEW timer; the stale callback
+   (cache.Del(key): it knows the key only) then deletes the new value and the new timer.
+   The reference - an expiry concerns the entry whose time has come - keeps the new value. *)
+From GZ Require Import C16.Check.
+
+Theorem cache_stale_expiry_callback_refuted :
+  let ops := [XX (XSet 1 10 1500); XTickHold; XX (XSet 1 11 3500); XRelease; XX (XGet 1); XHeld] in
+  cwx_run (cw_new 0 300 1000 false) [] ops = [OUnit; OUnit; OUnit; OUnit; OOpt None; OList []] /\
+  refwx_run 1000 (mkRefW (s_new 0) []) ops = [OUnit; OUnit; OUnit; OUnit; OOpt (Some 11); OList [1]] /\
+  (* released before the Set, nothing is lost *)
+  cwx_run (cw_new 0 300 1000 false) []
+    [XX (XSet 1 10 1500); XTickHold; XRelease; XX (XSet 1 11 3500); XX (XGet 1)] =
+    [OUnit; OUnit; OUnit; OUnit; OOpt (Some 11)].
+Proof. vm_compute. repeat split. Qed.
